@@ -258,6 +258,15 @@ class Ctx:
             cov["exhaustive"] = bool(self.exhaustive)
         cov.update(self.extra_cov)
         cov.update(self.notes)
+        if not self.assumptions:
+            try:
+                chk = json.loads((VERIF / "tools" / "checks.json").read_text()).get(self.pid, {})
+                self.assumptions = [chk["note"]] if chk.get("note") else []
+                cov["technique"] = chk.get("technique", "")
+            except Exception:  # noqa: BLE001
+                pass
+            self.assumptions += ["TLC 1.8 evaluates the specification correctly",
+                                 "the harness projects implementation values to raw integers / bytes faithfully"]
         ev = {
             "property_id": self.pid,
             "tier": self.tier,
